@@ -140,6 +140,22 @@ NEEDS6 = {
  "C18_a": "process_partial_into_buffer pads a flush (None, <= 16384 frames) from a [T::zero(); 16384] array on the stack: an instance that runs on a thread with a small (valid) stack aborts with a stack overflow on its next flush",
  "C18_b": "SincFixedIn completes a ramp only if !std::thread::panicking(): calls issued from a destructor while the thread unwinds re-ramp from the old ratio",
 }
+NEEDS7 = {
+ "C04_a": "FastFixedIn::calc_needed_len returns 2 early when the smallest step is at least chunk_size, forgetting what an earlier call at a much lower ratio left unprocessed: chunk of a few frames with chunk*ratio <= 1, calls at a ~3x lower ratio, then a jump without ramp -> more frames written than output_frames_next",
+ "C04_b": "SincFixedIn::output_frames_max returns 3 when max_chunk*ratio*max_relative <= 1: heavy decimation, tiny chunk, max_relative >= ~1.8, calls at the lowest ratio then a jump of ~3x without ramp -> output_frames_next 4 > max 3",
+ "C07_a": "FftFixedIn handles at most sub_chunks+2 FFT blocks per call, surplus blocks pile up: sub_chunks >= 4, chunk smaller than ~sub_chunks^2/2, a tiny minimal block (8000->48000, chunk 7, 4 sub chunks)",
+ "C07_b": "SincFixedOut::set_resample_ratio returns early when ramp && new == current ratio, leaving a stale pending ramp target: set(x, ramp), set(current, ramp) without a call in between, then any call",
+ "C09_a": "FftResampler keeps at most 2^15 complex elements of scratch and falls back to realfft's allocating process(): FFT size with a prime factor above ~7800 (10007->8000)",
+ "C09_b": "overlap buffers created empty when fft_size_out exceeds 2^17 and resized on first use: large nearly coprime rates (177147->262144)",
+ "C12_a": "SincFixedOut::set_resample_ratio gets an input-size limit ceil(max_chunk/(orig/max)) + (len+1)/2: the exact lower bound is rejected on a fresh or just-reset instance when chunk*max/orig is an exact integer (44100/48000, max 2, chunk 441)",
+ "C12_b": "FastFixedIn range test gets a third conjunct ceil(1/new) + 2*POLY < history_len: the exact lower bound is rejected when max/orig is an integer whose reciprocal does not round-trip (45, 49, 11)",
+ "C13_a": "SincFixedIn validates the output length against an inline min(t, t + N*((t_end-t)/N)) bound: one less than output_frames_next on the call that performs an upward ramp when distance/t_end sits on an integer; an output one frame short is then accepted",
+ "C13_b": "SincFixedOut recomputes the required input length for validation while a ramp is pending: 770 against a cached 771 in a rounding coincidence (ratio 1 -> 2.098532494758909, chunk 1000); an input one frame short passes validation and the copy panics",
+ "C15_a": "AVX f32 table stored in slabs of 2^16 rows but masked with 0x7fff: oversampling factors above 32768, sub-filter indices with bit 15 set",
+ "C15_b": "AVX f64 table split into blocks of at most 2^20 vectors, whole rows only, but addressed as flat: sinc_len not a power of two and sinc_len/4 * factor above 2^20",
+ "C17_a": "SincFixedOut::set_resample_ratio accepts a ratio above original*max when it equals the limit after T::coerce: f32 accepts what f64 rejects within half an f32 ulp above the upper limit (absolute setter)",
+ "C17_b": "SSE f32 kernel with four accumulators and 16 taps per iteration, no tail: last 8 taps dropped when sinc_len is 8 x odd; needs the SSE kernel to be dispatched (no AVX+FMA)",
+}
 ROUND = int(os.environ.get('SEEDED_ROUND', '1'))
 if ROUND == 2:
     NEEDS = NEEDS2
@@ -151,9 +167,11 @@ if ROUND == 5:
     NEEDS = NEEDS5
 if ROUND == 6:
     NEEDS = NEEDS6
-SRC_ROOT = {1: '/tmp/seeded-out', 2: '/tmp/seeded2-out', 3: '/tmp/seeded3-out', 4: '/tmp/seeded4-out', 5: '/tmp/seeded5-out', 6: '/tmp/seeded6-out'}[ROUND]
-LOGS = {1: ['/tmp/seeded-results.log'], 2: ['/tmp/seeded2-baseline.log', '/tmp/seeded2-new.log', '/tmp/seeded2-final.log', '/tmp/seeded2-thorough.log'], 3: ['/tmp/seeded3-new.log', '/tmp/seeded3-thorough.log', '/tmp/seeded3-final.log', '/tmp/seeded3-final2.log'], 4: ['/tmp/seeded4-new.log', '/tmp/seeded4-thorough.log', '/tmp/seeded4-final.log', '/tmp/seeded4-confirm.log'], 5: ['/tmp/seeded5-new.log', '/tmp/seeded5-final.log', '/tmp/seeded5-thorough.log'], 6: ['/tmp/seeded6-new.log', '/tmp/seeded6-final.log', '/tmp/seeded6-thorough.log']}[ROUND]
-PREFIX = {1: '', 2: 'R2_', 3: 'R3_', 4: 'R4_', 5: 'R5_', 6: 'R6_'}[ROUND]
+if ROUND == 7:
+    NEEDS = NEEDS7
+SRC_ROOT = {1: '/tmp/seeded-out', 2: '/tmp/seeded2-out', 3: '/tmp/seeded3-out', 4: '/tmp/seeded4-out', 5: '/tmp/seeded5-out', 6: '/tmp/seeded6-out', 7: '/tmp/seeded7-out'}[ROUND]
+LOGS = {1: ['/tmp/seeded-results.log'], 2: ['/tmp/seeded2-baseline.log', '/tmp/seeded2-new.log', '/tmp/seeded2-final.log', '/tmp/seeded2-thorough.log'], 3: ['/tmp/seeded3-new.log', '/tmp/seeded3-thorough.log', '/tmp/seeded3-final.log', '/tmp/seeded3-final2.log'], 4: ['/tmp/seeded4-new.log', '/tmp/seeded4-thorough.log', '/tmp/seeded4-final.log', '/tmp/seeded4-confirm.log'], 5: ['/tmp/seeded5-new.log', '/tmp/seeded5-final.log', '/tmp/seeded5-thorough.log'], 6: ['/tmp/seeded6-new.log', '/tmp/seeded6-final.log', '/tmp/seeded6-thorough.log'], 7: ['/tmp/seeded7-new.log', '/tmp/seeded7-final.log', '/tmp/seeded7-thorough.log']}[ROUND]
+PREFIX = {1: '', 2: 'R2_', 3: 'R3_', 4: 'R4_', 5: 'R5_', 6: 'R6_', 7: 'R7_'}[ROUND]
 res = {}
 cur = None
 import itertools
@@ -213,7 +231,7 @@ for key in sorted(NEEDS):
     clause = re.search(r'clause=([\w<>=!\-]+)', final.get('detail', ''))
     tally.append((meta['caught_by_quick_check'], meta['caught_by_thorough_check'], bool(meta['caught_by_other_property_check']), any(r['verdict'] == 'NOT-APPLICABLE' for r in runs[-1:])))
     rows.append((PREFIX + key, p, ' / '.join(f"{r.get('stage','').replace('seeded2-','').replace('seeded3-','').replace('seeded4-','').replace('seeded5-','').replace('seeded6-','').replace('seeded7-','').replace('seeded-results','run')}{'' if r['property'] == p else '(' + r['property'] + ')'}:{r['verdict']}" for r in runs) or 'NOT-RUN', clause.group(1) if clause else '', len(runs), NEEDS[key]))
-with open({1: '/verif/seeded/RESULTS.md', 2: '/verif/seeded/RESULTS_round2.md', 3: '/verif/seeded/RESULTS_round3.md', 4: '/verif/seeded/RESULTS_round4.md', 5: '/verif/seeded/RESULTS_round5.md', 6: '/verif/seeded/RESULTS_round6.md'}[ROUND], 'w') as f:
+with open({1: '/verif/seeded/RESULTS.md', 2: '/verif/seeded/RESULTS_round2.md', 3: '/verif/seeded/RESULTS_round3.md', 4: '/verif/seeded/RESULTS_round4.md', 5: '/verif/seeded/RESULTS_round5.md', 6: '/verif/seeded/RESULTS_round6.md', 7: '/verif/seeded/RESULTS_round7.md'}[ROUND], 'w') as f:
     f.write("# Independent seeded changes (one sub-agent per property, two variants each)\n\n")
     f.write("Each change compiles, passes the 96 existing tests, and has a demonstration that fails with it and passes without it (confirmed in a scratch worktree). `check runs` counts how often the target check was run against it (a second run follows a strengthening of the check, see DESIGN.md section 13).\n\n")
     f.write("| id | property | quick check verdict | first clause | check runs | needs |\n|---|---|---|---|---|---|\n")
